@@ -387,7 +387,8 @@ Proof.
   destruct (parse_unit_name r s) as [|[p u] l]; [intros [= <-]; discriminate|].
   destruct (String.eqb p "").
   - destruct (r_units r !! u); [discriminate | intros [= <-]; discriminate].
-  - unfold prefixed_def. destruct (r_prefixes r !! p), (r_units r !! u) as [ud|]; try (intros [= <-]; discriminate).
+  - destruct (r_units r !! (p ++ u)); [discriminate|].
+    unfold prefixed_def. destruct (r_prefixes r !! p), (r_units r !! u) as [ud|]; try (intros [= <-]; discriminate).
     destruct (negb (u_multiplicative ud)); [intros [= <-]; discriminate|].
     destruct (get_symbol r (p ++ u)) eqn:E; simpl; [discriminate|]. intros [= <-]. eauto using get_symbol_err.
 Qed.
